@@ -169,8 +169,10 @@ def replay(cs, scenario, graph, rec, modes=DEFAULT_MODES, foreign=True, max_stat
             a = pyref.flat_action(cs, k)
             n_edges += 1
             grp += 1
-            for j, e in enumerate(eids):
-                # both distances from the probability are used on alternating environments
+            # both distances from the probability are used, on alternating environments; the members of a
+            # lock-step group (same draw) are recorded contiguously
+            for j in list(range(0, len(eids), 2)) + list(range(1, len(eids), 2)):
+                e = eids[j]
                 u = pyref.draw_for(a["prob"], luck, j % 2)
                 counter += 1
                 rec.genstep(e, None, spec_for(cs, params, k, modes[j][1], counter), u, grp=grp * 2 + (j % 2))
